@@ -305,6 +305,13 @@ impl LinkFlowState<role::ReceiverMarker> {
         self.unconsumed.fetch_add(1, Ordering::Relaxed);
     }
 
+    /// The channel between the session and the link has been replaced (the link is being
+    /// attached again): whatever was still waiting in the old channel will never be received
+    pub fn reset_unconsumed(&self) {
+        let _state = self.lock.write();
+        self.unconsumed.store(0, Ordering::Relaxed);
+    }
+
     /// Consume one link credit if available. Returns an error if there is
     /// not enough link credit
     pub fn consume(&self, count: u32) -> Result<(), ReceiverTransferError> {
